@@ -22,6 +22,8 @@ pub enum Kind {
     Pair,
     Unit,
     Tracked,
+    Big72,
+    Al32,
 }
 
 #[derive(Clone, Copy, Debug, Serialize, Deserialize, PartialEq, Eq, Hash)]
@@ -46,7 +48,7 @@ macro_rules! lat_const {
     ($n:expr, $N:ident, $K:ident, $body:expr) => {
         lat_const!(@go $n, $N, $K, $body, [0 U0, 1 U1, 2 U2, 3 U3, 4 U4, 5 U5, 6 U6, 7 U7, 8 U8, 9 U9, 10 U10, 11 U11, 12 U12,
             15 U15, 16 U16, 17 U17, 31 U31, 32 U32, 33 U33, 63 U63, 64 U64, 65 U65, 100 U100, 127 U127, 128 U128, 129 U129,
-            255 U255, 256 U256, 257 U257, 511 U511, 512 U512, 1000 U1000, 1023 U1023, 1024 U1024])
+            255 U255, 256 U256, 257 U257, 511 U511, 512 U512, 1000 U1000, 1023 U1023, 1024 U1024, 2048 U2048, 4096 U4096])
     };
     (@go $n:expr, $N:ident, $K:ident, $body:expr, [$($num:literal $ty:ident),*]) => {
         match $n {
@@ -305,6 +307,8 @@ pub fn exec(case: &Case, acc: &mut Acc) -> Result<(), String> {
         Kind::Pair => exec_typed::<(u8, u16)>(case, acc),
         Kind::Unit => exec_typed::<()>(case, acc),
         Kind::Tracked => exec_typed::<Tracked>(case, acc),
+        Kind::Big72 => exec_typed::<harness::registry::Big72>(case, acc),
+        Kind::Al32 => exec_typed::<harness::registry::Al32>(case, acc),
     }
 }
 
@@ -328,7 +332,7 @@ pub fn main() {
         x ^= x << 17;
         x >> 16
     };
-    for kind in [Kind::U8, Kind::U32, Kind::Pair, Kind::Unit, Kind::Tracked] {
+    for kind in [Kind::U8, Kind::U32, Kind::Pair, Kind::Unit, Kind::Tracked, Kind::Big72, Kind::Al32] {
         for &n in harness::lens::LAT {
             for _ in 0..draws {
                 for k in 0..7u8 {
@@ -368,7 +372,7 @@ pub fn main() {
         Report {
             prop: PROP,
             level: "exploration",
-            rule: "case = (N in the 34-length lattice, element kind u8/u32/(u8,u16)/()/drop-tracked, operation, seeded values). Views: as_slice, Deref, AsRef/Borrow<[T]>, AsRef<[T;N]>, iter(), &GenericArray::into_iter and the seven mutable counterparts must each start at the array's address, have N elements in index order; a write through each of the 7 mutable views is read back through all others. \
+            rule: "case = (N in the 36-length lattice (to 4096), element kind u8/u32/(u8,u16)/()/drop-tracked/72-byte [u64;9]/32-byte-aligned, operation, seeded values). Views: as_slice, Deref, AsRef/Borrow<[T]>, AsRef<[T;N]>, iter(), &GenericArray::into_iter and the seven mutable counterparts must each start at the array's address, have N elements in index order; a write through each of the 7 mutable views is read back through all others. \
                    Reinterpretation: slices of length L in {0, 1, N-1, N, N+1, N+2, 2N, 2N+1, random} through from_slice, try_from_slice, from_mut_slice, try_from_mut_slice, TryFrom<&[T]>, TryFrom<&mut [T]>: panic / LengthError iff L != N, fallible forms never panic, success aliases the source (pointer equality; a wrongly accepted reference is never dereferenced). \
                    By value: from_array/into_array, From/Into, &[T;N] and &mut [T;N] conversions, all 12 tuple arities keep position i at i. \
                    non-trivial = L != N reinterpretation attempts and write-through cases with N > 0; distinct = distinct case tuples",
